@@ -376,6 +376,15 @@ class _Expr(ast.NodeTransformer):
 
     def visit_Call(self, node):
         self.generic_visit(node)
+        if isinstance(node.func, ast.Lambda):
+            from .inline import beta_reduce
+            red = beta_reduce(node)
+            if red is not node:
+                return self.visit(red)
+        if isinstance(node.func, ast.Name) and node.func.id == "getattr" and len(node.args) == 2 and not node.keywords \
+                and isinstance(node.args[1], ast.Constant) and isinstance(node.args[1].value, str) \
+                and node.args[1].value.isidentifier():
+            return ast.Attribute(value=node.args[0], attr=node.args[1].value, ctx=ast.Load())
         if isinstance(node.func, ast.Name) and node.func.id == "dict" and not node.args and node.keywords \
                 and all(k.arg is not None for k in node.keywords):
             return ast.Dict(keys=[ast.Constant(value=k.arg) for k in node.keywords], values=[k.value for k in node.keywords])
@@ -415,59 +424,95 @@ def _is_none_return(st):
     return isinstance(st, ast.Return) and (st.value is None or (isinstance(st.value, ast.Constant) and st.value.value is None))
 
 
-def _first_evaluated(node):
-    """The first expression whose evaluation can have an effect, following Python's evaluation order (loads of plain
-    names and attribute chains on the way are taken as effect-free)."""
-    while True:
-        if isinstance(node, (ast.Expr, ast.Return)):
-            if node.value is None:
-                return None
-            node = node.value
-        elif isinstance(node, ast.Assign) or isinstance(node, ast.AugAssign):
-            if isinstance(node, ast.AugAssign) or not all(isinstance(t, ast.Name) for t in node.targets):
-                return None
-            node = node.value
-        elif isinstance(node, ast.If):
-            node = node.test
-        elif isinstance(node, ast.For):
-            node = node.iter
-        elif isinstance(node, ast.Call):
-            f = node.func
-            while isinstance(f, ast.Attribute):
-                f = f.value
-            if not isinstance(f, ast.Name):
-                node = node.func
-                continue
-            if isinstance(node.func, ast.Attribute) and isinstance(f, ast.Name) and not node.args:
-                return f if isinstance(node.func.value, ast.Name) else None
-            if not node.args:
-                return None
-            if isinstance(node.func, ast.Attribute):
-                # obj.m(a): obj loaded first
-                return f if isinstance(node.func.value, ast.Name) and False else _first_evaluated(node.args[0])
-            node = node.args[0]
-        elif isinstance(node, (ast.GeneratorExp, ast.ListComp, ast.SetComp)):
-            node = node.generators[0].iter
-        elif isinstance(node, ast.BinOp):
-            node = node.left
-        elif isinstance(node, ast.Compare):
-            node = node.left
-        elif isinstance(node, ast.BoolOp):
-            node = node.values[0]
-        elif isinstance(node, ast.UnaryOp):
-            node = node.operand
-        elif isinstance(node, ast.IfExp):
-            node = node.test
-        elif isinstance(node, (ast.Attribute, ast.Subscript, ast.Starred)):
-            node = node.value
-        elif isinstance(node, (ast.Tuple, ast.List)):
-            if not node.elts:
-                return None
-            node = node.elts[0]
-        elif isinstance(node, ast.Name):
-            return node
-        else:
-            return None
+class _Stop(Exception):
+    pass
+
+
+def _loaded_first(node, v):
+    """True when local ``v`` is read before anything that can have an effect while ``node`` (a statement) is evaluated.
+    Reads of plain names, literals and attribute reads on plain names count as effect-free."""
+    result = [False]
+
+    def effect():
+        raise _Stop()
+
+    def ev(n):
+        if n is None or isinstance(n, ast.Constant):
+            return
+        if isinstance(n, ast.Name):
+            if n.id == v and isinstance(n.ctx, ast.Load):
+                result[0] = True
+                raise _Stop()
+            return
+        if isinstance(n, ast.Attribute):
+            ev(n.value)
+            if not isinstance(n.value, ast.Name):
+                effect()
+            return
+        if isinstance(n, ast.Call):
+            ev(n.func)
+            for a_ in n.args:
+                ev(a_)
+            for k in n.keywords:
+                ev(k.value)
+            effect()
+        if isinstance(n, ast.Starred):
+            ev(n.value)
+            return
+        if isinstance(n, (ast.Tuple, ast.List, ast.Set)):
+            for e in n.elts:
+                ev(e)
+            return
+        if isinstance(n, ast.BinOp):
+            ev(n.left)
+            ev(n.right)
+            effect()
+        if isinstance(n, ast.UnaryOp):
+            ev(n.operand)
+            effect()
+        if isinstance(n, ast.Compare):
+            ev(n.left)
+            ev(n.comparators[0])
+            effect()
+        if isinstance(n, ast.BoolOp):
+            ev(n.values[0])
+            effect()
+        if isinstance(n, ast.IfExp):
+            ev(n.test)
+            effect()
+        if isinstance(n, ast.Subscript):
+            ev(n.value)
+            ev(n.slice)
+            effect()
+        if isinstance(n, ast.Slice):
+            ev(n.lower)
+            ev(n.upper)
+            ev(n.step)
+            return
+        if isinstance(n, (ast.GeneratorExp, ast.ListComp, ast.SetComp, ast.DictComp)):
+            ev(n.generators[0].iter)
+            effect()
+        if isinstance(n, (ast.Expr, ast.Return)):
+            ev(n.value)
+            effect()
+        if isinstance(n, ast.Assign):
+            ev(n.value)
+            effect()
+        if isinstance(n, ast.If):
+            ev(n.test)
+            effect()
+        if isinstance(n, ast.For):
+            ev(n.iter)
+            effect()
+        if isinstance(n, ast.keyword):
+            ev(n.value)
+            return
+        effect()
+    try:
+        ev(node)
+    except _Stop:
+        pass
+    return result[0]
 
 
 def _stored_names(node):
@@ -593,6 +638,17 @@ def _norm_simple(stmts, ctx):
                 changed = True
                 i += 1
                 continue
+            if isinstance(st, ast.Assign) and len(st.targets) == 1 and isinstance(st.targets[0], (ast.Tuple, ast.List)) \
+                    and isinstance(st.value, (ast.Tuple, ast.List)) and len(st.value.elts) == len(st.targets[0].elts) \
+                    and all(isinstance(e, (ast.Name, ast.Constant)) for e in st.value.elts) \
+                    and not any(isinstance(t, ast.Starred) for t in st.targets[0].elts):
+                tnames = {n.id for t in st.targets[0].elts for n in ast.walk(t) if isinstance(n, ast.Name)}
+                if not tnames & {e.id for e in st.value.elts if isinstance(e, ast.Name)}:
+                    for t, e in zip(st.targets[0].elts, st.value.elts):
+                        out.append(ast.Assign(targets=[t], value=e, lineno=st.lineno, col_offset=0))
+                    changed = True
+                    i += 1
+                    continue
             # for x in seq: x = f(x); ...   ->   for x in map(f, seq): ...
             if isinstance(st, ast.For) and isinstance(st.target, ast.Name) and st.body:
                 b0 = st.body[0]
@@ -621,8 +677,7 @@ def _norm_simple(stmts, ctx):
                 uses_next = _count_loads(nxt, v)
                 stores_next = v in _stored_names(nxt)
                 if not used_later and uses_next == 1 and not stores_next:
-                    fe = _first_evaluated(nxt)
-                    first = fe is not None and fe.id == v
+                    first = _loaded_first(nxt, v)
                     pure = _simple_arg(st.value) and not isinstance(nxt, (ast.For, ast.While, ast.If, ast.Try, ast.With) + FuncTypes)
                     if first or pure:
                         stmts[i + 1] = _Subst({v: st.value}).visit(nxt)
@@ -1377,7 +1432,23 @@ def canonical_ast(fn, helpers, methods=None, hier=None):
                 frontier.append(allh.get(nm) or allm.get(nm))
     helpers = {k: _clean(v) for k, v in allh.items() if k in used}
     methods = {k: _clean(v) for k, v in allm.items() if k in used}
-    f = _inline_all(f, helpers, methods or {})
+    from .inline import Inliner, run_inliner
+    for _ in range(3):
+        inl = Inliner(helpers, methods or {})
+        run_inliner(inl, f, frozenset())
+        if not inl.done:
+            break
+
+    class _Beta(ast.NodeTransformer):
+        def visit_Call(self, node):
+            self.generic_visit(node)
+            if isinstance(node.func, ast.Lambda):
+                from .inline import beta_reduce
+                red = beta_reduce(node)
+                if red is not node:
+                    return self.visit(red)
+            return node
+    f = _Beta().visit(f)
     ast.fix_missing_locations(f)
     f.body = docstring_free(f.body)
     _ssa_toplevel(f)
@@ -1393,6 +1464,8 @@ def canonical_ast(fn, helpers, methods=None, hier=None):
         bound = frozenset(_bound(f))
         f.body = _norm_region(f.body, "func", {"bound": bound, "root": f, "defined": params})
         split_webs(f)
+        from .inline import cleanup_copies
+        cleanup_copies(f)
         for _ in range(4):
             if not _propagate_pure(f):
                 break
@@ -1479,7 +1552,14 @@ def adopt_reference(tree, ref_tree, hier_cur=None, hier_ref=None):
             continue
         try:
             cls = key.split(".")[0] if "." in key else None
-            if canonical(fc, helpers_cur, meth_cur.get(cls), hier_cur) == canonical(fr, helpers_ref, meth_ref.get(cls), hier_ref):
+
+            def mt(tables, hier):
+                out = {}
+                for b in (hier or {}).get(cls, ()):
+                    out.update(tables.get(b, {}))
+                out.update(tables.get(cls, {}))
+                return out
+            if canonical(fc, helpers_cur, mt(meth_cur, hier_cur), hier_cur) == canonical(fr, helpers_ref, mt(meth_ref, hier_ref), hier_ref):
                 new = copy.deepcopy(r)
                 # keep the position of the current definition for reports
                 delta = getattr(node, "lineno", 1) - getattr(r, "lineno", 1)
@@ -1492,4 +1572,24 @@ def adopt_reference(tree, ref_tree, hier_cur=None, hier_ref=None):
                 adopted.append(key)
         except (RecursionError, Inconclusive):
             continue
+    if adopted:
+        # helpers that only the adopted units used are, in the adopted view, inlined: they are no longer part of it
+        for _ in range(3):
+            removed = False
+            for key, node, container, idx in units(tree):
+                if key in ref or not isinstance(node, FuncTypes) or not node.name.startswith("_") or node.name.startswith("__"):
+                    continue
+                uses = 0
+                for n in ast.walk(tree):
+                    if isinstance(n, ast.Name) and n.id == node.name and isinstance(n.ctx, ast.Load):
+                        uses += 1
+                    elif isinstance(n, ast.Attribute) and n.attr == node.name:
+                        uses += 1
+                if uses == 0 and container[idx] is node:
+                    del container[idx]
+                    adopted.append("absorbed:" + key)
+                    removed = True
+                    break
+            if not removed:
+                break
     return adopted
